@@ -40,16 +40,21 @@ F = "self._msg_futures"
 INV_DISTINCT = "forall(lambda j, k: implies(0 <= j < k < len(%s), %s[j][0] != %s[k][0]))" % (F, F, F)
 INV_SEPARATE = ("forall(lambda j: implies(0 <= j < len(%s), %s[j][0] != self.future and %s[j][0] != self._drain_waiter"
                 " and allocated(%s[j][0])))" % (F, F, F, F))
-INV_MAIN = "self.future != self._drain_waiter and not self.future.cancelled()"
+INV_MAIN = "self.future != self._drain_waiter"
 BATCH_INV = [("record-futures-distinct", INV_DISTINCT), ("record-futures-separate", INV_SEPARATE),
-             ("batch-futures-distinct", INV_MAIN)]
+             ("batch-futures-distinct", INV_MAIN), ("retry-count-non-negative", "self._retry_count >= 0")]
+from pyvc.contract import CLASSES
+CLASSES["MessageBatch"].invariants = list(BATCH_INV)
+# never cancelled: the batch future is only handed out behind asyncio.shield() (add_batch) and nothing in the
+# producer package cancels it; failure() would otherwise raise CancelledError from future.exception()
+CLASSES["MessageBatch"].assumed = [("batch-future-never-cancelled", "not self.future.cancelled()")]
+CLASSES["BatchBuilder"].invariants = [("count-non-negative", "self._relative_offset >= 0")]
+# a batch is bounded by max_batch_size bytes, far below 2^31 records
+CLASSES["BatchBuilder"].assumed = [("count-fits-int32", "self._relative_offset <= 2**31 - 1")]
 
 
 def batch_inv(c, ensure=True):
-    for lbl, e in BATCH_INV:
-        c.requires(e, "inv:" + lbl)
-        if ensure:
-            c.ensures("inv:" + lbl, e)
+    """object invariants are attached to the class model (required of self, ensured, assumed of other receivers)"""
 
 
 # ---- BatchBuilder: the record codec behind it is under contract in C09; here only its bookkeeping
@@ -145,9 +150,11 @@ def _(c):
          " and (old(self._msg_futures[j][0].done()) or self._msg_futures[j][0].result() == " + TRUE_COORD_INV + ")))"),
         ("untouched-suffix", "forall(lambda j: implies($i <= j < len(self._msg_futures), fut_same(self._msg_futures[j][0])))"),
         ("batch-future-done", "self.future.done()"),
+        ("others-untouched", "forall(lambda r: implies(0 < r < old(nalloc()) and not is_record_future(self, r) and r != self.future, fut_same(r)))"),
     ])
     c.ensures("true-coordinates", "forall(lambda j: implies(0 <= j < len(self._msg_futures) and not old(self._msg_futures[j][0].done()),"
               " self._msg_futures[j][0].done() and self._msg_futures[j][0].result() == " + TRUE_COORD + "))")
+    c.ensures("nothing-else-touched", "forall(lambda r: implies(0 < r < old(nalloc()) and not is_record_future(self, r) and r != self.future, fut_same(r)))")
     c.ensures("all-resolved", "self.future.done() and forall(lambda j: implies(0 <= j < len(self._msg_futures), self._msg_futures[j][0].done()))")
     c.ensures("resolved-before-untouched", "forall(lambda j: implies(0 <= j < len(self._msg_futures) and old(self._msg_futures[j][0].done()),"
               " fut_same(self._msg_futures[j][0])))")
@@ -190,9 +197,11 @@ def _(c):
          " and (old(self._msg_futures[j][0].done()) or self._msg_futures[j][0].result() is None)))"),
         ("untouched-suffix", "forall(lambda j: implies($i <= j < len(self._msg_futures), fut_same(self._msg_futures[j][0])))"),
         ("batch-future-done", "self.future.done()"),
+        ("others-untouched", "forall(lambda r: implies(0 < r < old(nalloc()) and not is_record_future(self, r) and r != self.future, fut_same(r)))"),
     ])
     c.ensures("no-metadata", "forall(lambda j: implies(0 <= j < len(self._msg_futures) and not old(self._msg_futures[j][0].done()),"
               " self._msg_futures[j][0].done() and self._msg_futures[j][0].result() is None))")
+    c.ensures("nothing-else-touched", "forall(lambda r: implies(0 < r < old(nalloc()) and not is_record_future(self, r) and r != self.future, fut_same(r)))")
     c.ensures("all-resolved", "self.future.done() and forall(lambda j: implies(0 <= j < len(self._msg_futures), self._msg_futures[j][0].done()))")
 
 
@@ -208,6 +217,7 @@ def _(c):
          " and (old(self._msg_futures[j][0].done()) or self._msg_futures[j][0].exception() == exception)))"),
         ("untouched-suffix", "forall(lambda j: implies($i <= j < len(self._msg_futures), fut_same(self._msg_futures[j][0])))"),
         ("batch-future-done", "self.future.done() and (old(self.future.done()) or self.future.exception() == exception)"),
+        ("others-untouched", "forall(lambda r: implies(0 < r < old(nalloc()) and not is_record_future(self, r) and r != self.future, fut_same(r)))"),
     ])
     c.ensures("every-pending-record-fails-with-it", "forall(lambda j: implies(0 <= j < len(self._msg_futures) and not old(self._msg_futures[j][0].done()),"
               " self._msg_futures[j][0].done() and self._msg_futures[j][0].exception() == exception))")
@@ -274,3 +284,232 @@ def some_int(ex, st, v):
 def old_ts(ex, st):
     """the `timestamp` argument as passed by the caller (the loop body re-assigns the local)."""
     return ex.entry.env["timestamp"]
+
+
+# =================================================================== MessageAccumulator
+BATCH = Ref("MessageBatch")
+QUEUES = Dict(TP, List(BATCH), default="list")
+SPEC_TYPES["BATCH"] = BATCH
+
+classmodel("Cluster", {})
+classmodel("Loop", {})
+classmodel("TimerHandle", {"cancelled": BOOL})
+
+classmodel("MessageAccumulator", {
+    "_loop": Ref("Loop"),
+    "_batches": QUEUES,
+    "_pending_batches": Set(BATCH),
+    "_cluster": Ref("Cluster"),
+    "_batch_size": INT,
+    "_compression_type": INT,
+    "_batch_ttl": REAL,
+    "_waiter_future": Fut(NONE),
+    "_wakeup_handle": Opt(Ref("TimerHandle")),
+    "_closed": BOOL,
+    "_txn_manager": Opt(Ref("TransactionManager")),
+    "_linger_time": REAL,
+    "_exception": Opt(EXC),
+}, real=MOD + ":MessageAccumulator")
+
+# accumulator invariant: queues hold batches of their own partition; a key is present iff its queue is non-empty
+ACC_INV = [
+    ("queues-nonempty", "forall(TP, lambda q: implies(q in self._batches, len(self._batches[q]) >= 1))"),
+    ("queues-hold-own-partition", "forall(TP, lambda q: forall(lambda j: implies(q in self._batches and 0 <= j < len(self._batches[q]),"
+                                  " self._batches[q][j]._tp == q and allocated(self._batches[q][j]))))"),
+]
+
+
+def acc_inv(c, ensure=True):
+    for lbl, e in ACC_INV:
+        c.requires(e, "inv:" + lbl)
+        if ensure:
+            c.ensures("inv:" + lbl, e)
+
+
+@contract(MOD + ":MessageAccumulator._pop_batch", ["C01", "C02"])
+def _(c):
+    c.self_("MessageAccumulator")
+    c.param("tp", TP)
+    c.returns(BATCH)
+    acc_inv(c)
+    c.requires("tp in self._batches", "queue-exists")
+    c.requires("implies(self._txn_manager is not None, 0 <= seq_of(self._txn_manager._sequence_numbers, tp) <= 2**31 - 1)",
+               "sequence-counter-int32")
+    c.modifies("self._batches", "self._pending_batches", "MessageBatch._retry_count", "BatchBuilder.g_pid", "BatchBuilder.g_epoch",
+               "BatchBuilder.g_seq", "BatchBuilder.g_stamps", "TransactionManager._sequence_numbers",
+               "self._batches[tp][0]._drain_waiter.state", "self._batches[tp][0]._drain_waiter.nres")
+    c.raises("no-producer-id-or-batch-already-failed", "AssertionError",
+             when="self._txn_manager is not None and self._batches[tp][0]._retry_count == 0 and"
+                  " (self._txn_manager._pid_and_epoch[0] == -1 or self._batches[tp][0]._drain_waiter.done())")
+    c.ensures("pops-the-head", "result == old(self._batches[tp][0])")
+    c.ensures("rest-of-queue-kept-in-order", "forall(lambda j: implies(0 <= j < len(old(self._batches[tp])) - 1,"
+              " self._batches[tp][j] == old(self._batches[tp])[j + 1]))"
+              " and len(self._batches[tp]) == len(old(self._batches[tp])) - 1")
+    c.ensures("other-queues-untouched", "forall(TP, lambda q: implies(q != tp, (q in self._batches) == (q in old(self._batches))"
+              " and self._batches[q] == old(self._batches)[q]))")
+    c.ensures("now-pending", "result in self._pending_batches and forall(BATCH, lambda b: implies(b != result,"
+              " (b in self._pending_batches) == (b in old(self._pending_batches))))")
+    c.ensures("first-drain-stamps-current-sequence", "implies(self._txn_manager is not None and old(result._retry_count) == 0,"
+              " result._builder.g_seq == old(seq_of(self._txn_manager._sequence_numbers, tp))"
+              " and result._builder.g_pid == self._txn_manager._pid_and_epoch[0]"
+              " and result._builder.g_epoch == self._txn_manager._pid_and_epoch[1]"
+              " and result._builder.g_stamps == old(result._builder.g_stamps) + 1)")
+    c.ensures("first-drain-advances-counter-by-record-count", "implies(self._txn_manager is not None and old(result._retry_count) == 0,"
+              " seq_of(self._txn_manager._sequence_numbers, tp) == kafka_inc(old(seq_of(self._txn_manager._sequence_numbers, tp)),"
+              " result._builder._relative_offset))")
+    c.ensures("retry-keeps-stamp-and-counter", "implies(old(result._retry_count) > 0 or self._txn_manager is None,"
+              " same_heap('BatchBuilder') and same_heap('TransactionManager'))")
+    c.ensures("retry-counted", "result._retry_count == old(result._retry_count) + 1")
+    c.ensures("other-batches-untouched", "forall(BATCH, lambda b: implies(b != result, unchanged(b)))")
+    c.ensures("other-counters-untouched", "implies(self._txn_manager is not None, forall(TP, lambda q: implies(q != tp,"
+              " seq_of(self._txn_manager._sequence_numbers, q) == old(seq_of(self._txn_manager._sequence_numbers, q)))))")
+    c.ensures("counter-stays-int32", "implies(self._txn_manager is not None, 0 <= seq_of(self._txn_manager._sequence_numbers, tp) <= 2**31 - 1)")
+    c.ensures("manager-identity", "self._txn_manager == old(self._txn_manager) and self._cluster == old(self._cluster)"
+              " and implies(self._txn_manager is not None, self._txn_manager._pid_and_epoch == old(self._txn_manager._pid_and_epoch))")
+
+
+@contract(MOD + ":MessageAccumulator.reenqueue", ["C01", "C02"])
+def _(c):
+    c.self_("MessageAccumulator")
+    c.param("batch", BATCH)
+    acc_inv(c)
+    c.requires("batch in self._pending_batches", "was-drained")
+    c.requires("batch._drain_waiter.done()", "drain-waiter-released")
+    c.modifies("self._batches", "self._pending_batches", "batch._drain_waiter")
+    c.ensures("at-the-front", "self._batches[batch._tp][0] == batch and batch._tp in self._batches")
+    c.ensures("rest-of-queue-shifted", "len(self._batches[batch._tp]) == len(old(self._batches)[batch._tp]) + 1"
+              " and forall(lambda j: implies(0 <= j < len(old(self._batches)[batch._tp]),"
+              " self._batches[batch._tp][j + 1] == old(self._batches)[batch._tp][j]))")
+    c.ensures("other-queues-untouched", "forall(TP, lambda q: implies(q != batch._tp, (q in self._batches) == (q in old(self._batches))"
+              " and self._batches[q] == old(self._batches)[q]))")
+    c.ensures("no-longer-pending", "batch not in self._pending_batches and forall(BATCH, lambda b: implies(b != batch,"
+              " (b in self._pending_batches) == (b in old(self._pending_batches))))")
+    c.ensures("drain-waiter-re-armed", "not batch._drain_waiter.done()")
+
+
+@specfn("kafka_inc")
+def kafka_inc(ex, st, seq, n):
+    """Kafka DefaultRecordBatch.incrementSequence (DESIGN.md Appendix C.3)."""
+    import z3
+    from pyvc import ty as T
+    top = T.intval(2 ** 31 - 1).t
+    return V(INT, z3.If(seq.t <= top - n.t, seq.t + n.t, n.t - (top - seq.t) - 1))
+
+
+# ---- time-dependent helpers of MessageBatch --------------------------------------------------
+@contract(MOD + ":BatchBuilder.closed", ["C01", "C07"])
+def _(c):
+    c.self_("BatchBuilder")
+    c.returns(BOOL)
+    c.ensures("def", "result == self._closed")
+
+
+@contract(MOD + ":MessageBatch.expired", ["C01", "C02"])
+def _(c):
+    c.self_("MessageBatch")
+    c.returns(BOOL)
+    c.call("time.monotonic", returns=REAL, note="time.monotonic() returns some real number")
+
+
+@contract(MOD + ":MessageBatch.remaining_linger", ["C01"])
+def _(c):
+    c.self_("MessageBatch")
+    c.returns(Opt(REAL))
+    c.call("time.monotonic", returns=REAL, note="time.monotonic() returns some real number")
+    c.ensures("positive-or-none", "result is None or result > 0")
+    c.ensures("closed-builder-never-lingers", "implies(self._builder._closed, result is None)")
+
+
+@specfn("batch_ok")
+def batch_ok(ex, st, b):
+    """the MessageBatch object invariant, for batch b"""
+    import z3
+    cs = []
+    for lbl, e in BATCH_INV:
+        cs.append(ex.truthy(st, ex.spec_eval(e, st, extra={"self": b})))
+    return V(BOOL, z3.And(cs))
+
+
+QUEUED_OK = ("forall(TP, lambda q: forall(lambda j: implies(q in self._batches and 0 <= j < len(self._batches[q]),"
+             " implies(self._batches[q][j]._retry_count == 0, not self._batches[q][j]._drain_waiter.done()))))")
+SEQ_OK = ("implies(self._txn_manager is not None, forall(TP, lambda q:"
+          " 0 <= seq_of(self._txn_manager._sequence_numbers, q) <= 2**31 - 1))")
+NODES = Dict(INT, Dict(TP, BATCH), default="dict")
+
+
+@contract(MOD + ":MessageAccumulator.drain_by_nodes", ["C01", "C02", "C07"])
+def _(c):
+    c.self_("MessageAccumulator")
+    c.param("ignore_nodes", Set(INT))
+    c.param("muted_partitions", Set(TP))
+    c.returns(Tup(NODES, BOOL))
+    c.local("nodes", NODES)
+    c.local("remaining_linger_time", Opt(REAL))
+    acc_inv(c)
+    c.requires(SEQ_OK, "sequence-counters-int32")
+    c.modifies("self._batches", "self._pending_batches", "self._waiter_future", "self._wakeup_handle",
+               "MessageBatch._retry_count", "BatchBuilder.g_pid", "BatchBuilder.g_epoch", "BatchBuilder.g_seq", "BatchBuilder.g_stamps",
+               "TransactionManager._sequence_numbers", "Future.state", "Future.nres", "Future.exc", "Future.res",
+               "TimerHandle.cancelled")
+    c.call("self._cluster.leader_for_partition", returns=Opt(INT), note="cluster metadata lookup: some leader id, -1 or None")
+    c.call("self._wakeup_handle.cancel", modifies=["TimerHandle.cancelled"], note="TimerHandle.cancel() cancels that timer")
+    c.call("self._loop.call_later", returns=Ref("TimerHandle"), post=["fresh(result)"], note="loop.call_later returns a new timer handle")
+    # a batch that fail_all() failed while still queued trips set_producer_state's assertion when drained
+    c.raises("drains-an-already-failed-batch-or-no-pid", "AssertionError")
+    c.hook("before", "self._pop_batch", [
+        ("assert", "muted-partition-never-drained", "tp not in muted_partitions"),
+        ("assert", "only-queue-heads-leave", "tp in self._batches and self._batches[tp] == old(self._batches)[tp]"),
+    ])
+    c.hook("before", "batch.failure", [
+        ("assert", "idempotent-producer-never-expires-a-batch", "self._txn_manager is None"),
+    ])
+    c.loop(0, header="for tp in list(self._batches.keys())", invariants=[
+        ("unvisited-queues-untouched", "forall(TP, lambda q: implies(q not in $done, (q in self._batches) == (q in old(self._batches))"
+         " and self._batches[q] == old(self._batches)[q]))"),
+        ("muted-queues-untouched", "forall(TP, lambda q: implies(q in muted_partitions, (q in self._batches) == (q in old(self._batches))"
+         " and self._batches[q] == old(self._batches)[q]))"),
+        ("acc-inv-nonempty", ACC_INV[0][1]),
+        ("acc-inv-own", ACC_INV[1][1]),
+        ("seq-ok", SEQ_OK),
+        ("txn-manager-fixed", "self._txn_manager == old(self._txn_manager) and self._cluster == old(self._cluster)"),
+    ])
+    c.ensures("muted-partitions-untouched", "forall(TP, lambda q: implies(q in muted_partitions,"
+              " (q in self._batches) == (q in old(self._batches)) and self._batches[q] == old(self._batches)[q]))")
+    c.ensures("fresh-waiter", "not self._waiter_future.done()")
+
+
+@specfn("tail")
+def tail(ex, st, lst):
+    """lst[1:] in the same term shape deque.popleft() produces."""
+    import z3
+    from pyvc import ty as T
+    j = z3.Const("j!pl", INT.sort())
+    arr = z3.Lambda([j], z3.Select(T.list_arr(lst), j + T.intval(1).t))
+    return T.list_mk(lst.ty, arr, T.list_len(lst) - T.intval(1).t)
+
+
+_DRAIN_SCRIPT = '''
+import asyncio, time
+from aiokafka.producer.message_accumulator import MessageAccumulator
+from aiokafka.producer.transaction_manager import TransactionManager
+from aiokafka.structs import TopicPartition
+class Cluster:
+    def leader_for_partition(self, tp): return None          # leader unknown (stale metadata): a retriable condition
+async def main():
+    tm = TransactionManager(None, 1000)                        # idempotent, not transactional
+    tm.set_pid_and_epoch(7, 0)
+    acc = MessageAccumulator(Cluster(), 1 << 16, 0, 0.001, txn_manager=tm)     # batch ttl 1 ms
+    tp = TopicPartition("t", 0)
+    fut = await acc.add_message(tp, b"k", b"v", 1)
+    await asyncio.sleep(0.01)                                  # the batch is now older than its ttl
+    acc.drain_by_nodes(ignore_nodes=set())
+    failed = fut.done() and fut.exception() is not None
+    return failed, tm.sequence_number(tp), (repr(fut.exception()) if failed else None)
+failed, seq, exc = asyncio.run(main())
+VIOLATED = failed
+DETAIL = ("idempotent producer: drain_by_nodes failed an accepted record with %s because its partition had no leader "
+          "for longer than the batch ttl (a retriable condition), after consuming sequence numbers (counter now %d)" % (exc, seq)
+          if failed else "the batch stayed queued")
+'''
+from pyvc.contract import REGISTRY as _R
+_R[MOD + ":MessageAccumulator.drain_by_nodes"].replay_fn = lambda model, ob=None: {"script": _DRAIN_SCRIPT}
